@@ -26,8 +26,8 @@ RULE = ('cases: seeded histories of 5-20 adds/removes of named cell components o
         'removal with other components present, >=2 cells; distinct by (shape, op trace).')
 ASSUMPTIONS = ['removing np.copy is observationally invisible under pandas copy-on-write (stated reach limit)',
                'generators are pure functions of the coordinates', 'F4 (LookupGenerator on low-dimensional worlds) is a known finding']
-FLOORS = {'quick': {'cases_in_mode_warnings': 42, 'deep_copies_of_the_world_checked': 179, 'sources_that_add_another_component_while_running': 31, 'sources_failing_part_way': 36, 're_added_from_array': 26, 'column_comparisons': 8000, 'src_callable': 243, 'src_list': 231, 'src_numpy': 235, 'src_constant': 247,
-                    'src_lookup3': 300, 'src_subclassed': 200, 'lookup_table_changed_before_use': 100, 'source_mutated_before_first_read': 200, 'src_lookup_lowdim': 135, 'removals': 391, 'in_place_updates': 179, 're_added_existing_name': 94, 'rejected_unknown_removal': 300, 'source_mutations': 550,
+FLOORS = {'quick': {'src_subclassed_lookup_with_full_table': 76, 'cases_in_mode_warnings': 42, 'deep_copies_of_the_world_checked': 179, 'sources_that_add_another_component_while_running': 31, 'sources_failing_part_way': 36, 're_added_from_array': 26, 'column_comparisons': 8000, 'src_callable': 239, 'src_list': 231, 'src_numpy': 235, 'src_constant': 240,
+                    'src_lookup3': 300, 'src_subclassed': 200, 'lookup_table_changed_before_use': 100, 'source_mutated_before_first_read': 200, 'src_lookup_lowdim': 135, 'removals': 388, 'in_place_updates': 179, 're_added_existing_name': 94, 'rejected_unknown_removal': 300, 'source_mutations': 550,
                     'get_cell_rows': 3000, 'big_worlds': 2, 'many_component_worlds': 2, 'shapes_line': 50, 'shapes_grid': 50, 'shapes_3d': 50, 'shapes_degenerate': 50,
                     'generator_calls_checked': 1766, 'reach:Environments.DiscreteWorld.add_cell_component': 1900,
                     'reach:Environments.LookupGenerator.__call__': 1000},
@@ -172,8 +172,22 @@ def case_history(ctx, case):
                 verify_after = arr
             elif src == 'subclassed':
                 # user generators derived from the bundled ones: their own __call__ decides the value
-                base = rng.choice(['constant', 'lookup'])
-                if base == 'constant':
+                base = rng.choice(['constant', 'lookup', 'lookup_full', 'lookup_full'])
+                if base == 'lookup_full':
+                    # ... also with a complete table of the world's shape (nested lists or a numpy array) that its __call__ post-processes
+                    tab = [[[code((xx, yy, zz), salt) for zz in range(n_axes[2])] for yy in range(n_axes[1])] for xx in range(n_axes[0])]
+                    as_array = rng.random() < 0.6
+
+                    class G(envs.LookupGenerator):
+                        def __call__(self, pos, cells):
+                            return super().__call__(pos, cells) * 12 + 1
+                    g = G(np.array(tab) if as_array else tab)
+                    env.add_cell_component(name, g)
+                    exp = [code(p_, salt) * 12 + 1 for p_ in table]
+                    ctx.count('src_subclassed_lookup_with_full_table')
+                    trace.append(('add', name, 'subclassed-lookup-full', 'array' if as_array else 'lists'))
+                    base = None
+                elif base == 'constant':
                     class G(envs.ConstantGenerator):
                         def __call__(self, pos, cells, salt=salt):
                             return code(pos, salt)
@@ -183,8 +197,9 @@ def case_history(ctx, case):
                         def __call__(self, pos, cells, salt=salt):
                             return code(pos, salt) + self.table[0]
                     g = G([5])
-                env.add_cell_component(name, g)
-                exp = [code(p_, salt) + (5 if base == 'lookup' else 0) for p_ in table]
+                if base is not None:
+                    env.add_cell_component(name, g)
+                    exp = [code(p_, salt) + (5 if base == 'lookup' else 0) for p_ in table]
             elif src == 'constant':
                 v = rng.choice([0, 1, -2.5, 'k', None, True])
                 env.add_cell_component(name, envs.ConstantGenerator(v))
